@@ -31,17 +31,17 @@ CHECKS.update({
         "DESIGN.md 3/C05",
     ),
     "C12": (
-        "structured+fuzz",
-        "property-based testing with exhaustive per-case enumeration (every bit of every checksummed region, every truncation point), Hypothesis mutator over valid responses, and coverage-guided fuzzing (atheris/libFuzzer) with a deterministic work-budget oracle inside the target",
-        "Every single-bit flip and every cut point of each generated set is enumerated; bursts and in-wrapper corruption are sampled; arbitrary and mutated bytes are fed to all 17 decoders under a line-count budget linear in the input. Exploration of the input space; the linear budget is evidence of proportionality, not a complexity proof.",
+        "structured+fuzz+CONS",
+        "property-based testing with exhaustive per-case enumeration (every bit of every checksummed region, every truncation point), Hypothesis mutator over valid responses, coverage-guided fuzzing (atheris/libFuzzer) with a deterministic work-budget oracle inside the target, and stateful traces of the real Consumer for the buffer-enlargement clause",
+        "Every single-bit flip and every cut point of each generated set is enumerated; bursts and in-wrapper corruption are sampled; arbitrary and mutated bytes are fed to all 17 decoders under a line-count budget linear in the input; the consumer's reaction to a cut message (same offset again with a larger buffer, never giving up below the maximum) is checked end to end on engine CONS. Exploration of the input space; the linear budget is evidence of proportionality, not a complexity proof.",
         "Work measured as executed afkak source lines via sys.monitoring; budget constants calibrated on valid inputs; decompression output charged to the budget.",
         "DESIGN.md 3/C12",
     ),
     "C15": (
-        "structured",
-        "property-based testing (Hypothesis) with validity predicates over the leader's assignment, permutation metamorphic relation, differential decode against an independent parser, plus exhaustive small-scope enumeration",
-        "Random member/subscription/partition maps plus every input in a small scope; exact cover, only-subscribed, balance, order independence and decode agreement are checked on each.",
-        "Assumes the partition map covers all subscribed topics (coordinator's job).",
+        "structured+GRP",
+        "property-based testing (Hypothesis) with validity predicates over the leader's assignment, permutation metamorphic relation, differential decode against an independent parser, exhaustive small-scope enumeration, plus stateful traces in which the real Coordinator is elected leader of a simulated group",
+        "Random member/subscription/partition maps plus every input in a small scope; exact cover, only-subscribed, balance, order independence and decode agreement are checked on each; on engine GRP the SyncGroup the real leader writes is parsed independently and held to the same clauses, and a join won as leader must be followed by a SyncGroup or another attempt.",
+        "For the direct calls the partition map covers all subscribed topics; obtaining it is the coordinator's job and is exercised by the leader-path traces (ghost members may subscribe to more topics than the member under test).",
         "DESIGN.md 3/C15",
     ),
 })
@@ -148,8 +148,8 @@ def main():
             {"name": "BC", "path": "vlib/engines/bc.py", "serves_properties": ["C06", "C10"], "kind_free_text": "real _KafkaBrokerClient / KafkaBootstrapProtocol on simulated time and transports (vlib/simnet.py) against a scripted peer, with a reference model of the request table; traces are JSON and replay without Hypothesis"},
             {"name": "CL", "path": "vlib/engines/cl.py", "serves_properties": ["C04", "C07", "C08", "C11", "C20"], "kind_free_text": "real KafkaClient on simulated time/transports against vlib/simkafka.py (stateful cluster model built on the independent protocol implementation); Hypothesis draws calls, scheduler choices and faults; traces replay without Hypothesis"},
             {"name": "PROD", "path": "vlib/engines/prod.py", "serves_properties": ["C01", "C04", "C09", "C19"], "kind_free_text": "real Producer + KafkaClient on simulated time/transports against vlib/simkafka.py; acknowledgement ledger as ground truth; reference model of batching"},
-            {"name": "CONS", "path": "vlib/engines/cons.py", "serves_properties": ["C02", "C03", "C13", "C14"], "kind_free_text": "real Consumer + KafkaClient on simulated time/transports against vlib/simkafka.py (partition log, offset store, long-poll fetch); scripted processor; crash = drop consumer and client, keep the cluster"},
-            {"name": "GRP", "path": "vlib/engines/grp.py", "serves_properties": ["C16", "C17"], "kind_free_text": "real ConsumerGroup + KafkaClient on simulated time/transports against vlib/simkafka.py + vlib/simgroup.py (group coordinator model with session/rebalance timers, ghost members)"},
+            {"name": "CONS", "path": "vlib/engines/cons.py", "serves_properties": ["C02", "C03", "C12", "C13", "C14"], "kind_free_text": "real Consumer + KafkaClient on simulated time/transports against vlib/simkafka.py (partition log, offset store, long-poll fetch); scripted processor; crash = drop consumer and client, keep the cluster"},
+            {"name": "GRP", "path": "vlib/engines/grp.py", "serves_properties": ["C15", "C16", "C17"], "kind_free_text": "real ConsumerGroup + KafkaClient on simulated time/transports against vlib/simkafka.py + vlib/simgroup.py (group coordinator model with session/rebalance timers, ghost members)"},
             {"name": "structured", "path": "checks/", "serves_properties": ["C04", "C05", "C12", "C15", "C18"], "kind_free_text": "Hypothesis @given over composite strategies with an independent protocol implementation (vlib/refproto) or foreign implementation (JVM) as oracle"},
         ],
         "checks": checks,
